@@ -435,8 +435,15 @@ class Assembler:
             return a
         try:
             return self.xeval(a, scope)
-        except KeyError as e:
-            raise Unspecified(f"position from a layout-time symbol ({e})")
+        except KeyError:
+            pass
+        if all(n.startswith("lb_p") for n in X.idents(a)):
+            # a label defined right before the move (progen's `here: *=here`): its value is known when the move is laid out
+            try:
+                return X.evaluate(a, scope.lookup)
+            except KeyError as e:
+                raise Unspecified(f"position from a label that is not placed yet ({e})")
+        raise Unspecified("position from a layout-time symbol")
 
     def value(self, tree, scope):
         try:
